@@ -34,7 +34,7 @@ def strat(tier):
         'seed': st.integers(0, 2 ** 31 - 1),
         'big_n': st.just(1),
         # location of the first parameter's prior: a parameter whose mean is huge relative to its spread (|mean| / sd ~ 1e5)
-        'shift': st.sampled_from([0.0, 0.0, 1e5]),
+        'shift': st.sampled_from([0.0, 0.0, 0.0, 1e5, 1e5, 1e9]),
         # the threshold list in decreasing order (usual) or as drawn (any list is a valid schedule: round r uses thresholds[r])
         'ths_sorted': st.sampled_from([True, True, False]),
         # a rounding simulator: integer-valued discrepancies with many ties, thresholds that can be exactly 0 (exact matching)
@@ -274,7 +274,15 @@ def _run_and_judge(case, m, n, bs, kind, val, ths, objkw, pick, ctx):
             if not np.all(np.isfinite(cov)) or np.any(np.diag(cov) <= 0):
                 labels.append('degenerate-covariance-fallback')
                 continue
-            if not np.allclose(np.asarray(prev.cov), cov, rtol=1e-9, atol=0):
+            # a parameter located far from 0 relative to its spread: x - mean loses eps * |mean| / sd of relative accuracy
+            with np.errstate(all='ignore'):
+                kappa = float(np.max(np.abs(np.average(thp, axis=0, weights=wp)) / np.sqrt(np.diag(cov) / 2)))
+            kappa = kappa if np.isfinite(kappa) else 0.0
+            rt_cov = 1e-9 + 16 * 2.3e-16 * kappa
+            rt_w = 1e-8 + 64 * 2.3e-16 * kappa
+            if kappa > 1e7:
+                labels.append('location/spread>1e7')
+            if not np.allclose(np.asarray(prev.cov), cov, rtol=rt_cov, atol=0):
                 raise Violation('C07:population-covariance', 'population %d reports covariance %r, twice the weighted sample variance is %r; %s'
                                 % (i - 1, np.asarray(prev.cov).tolist(), cov.tolist(), ctx))
             wn = wp / wp.sum()
@@ -292,7 +300,7 @@ def _run_and_judge(case, m, n, bs, kind, val, ths, objkw, pick, ctx):
                 labels.append('underflowing-density-skipped')
             with np.errstate(all='ignore'):
                 wref = np.where(ok, pd / np.where(q > 0, q, 1.0), w)
-            if not np.allclose(w[ok], wref[ok], rtol=1e-8, atol=0):
+            if not np.allclose(w[ok], wref[ok], rtol=rt_w, atol=0):
                 k = int(np.flatnonzero(ok)[np.argmax(np.abs(w[ok] - wref[ok]) / wref[ok])])
                 raise Violation('C07:importance-weights', 'population %d particle %d has weight %r, prior density / mixture density of the previous population is %r (ratio %.6g); %s'
                                 % (i, k, w[k], wref[k], w[k] / wref[k], ctx))
@@ -325,6 +333,6 @@ CHECK = Check(
     design_ref='DESIGN.md section 4, C07',
     technique='Hypothesis-generated SMC configurations; reference recomputation of prior densities, mixture density, weighted variance '
               'and exact-rational quantile predicate; simulator log for n_sim',
-    level_text='Exploration: every population is checked for size, threshold in force, prior support, weights (rtol 1e-8) and covariance '
-               '(rtol 1e-9) against reference formulas evaluated on the previous population; n_sim against the simulator log.',
+    level_text='Exploration: every population is checked for size, threshold in force, prior support, weights (rtol 1e-8 + 64 eps location/spread) and covariance '
+               '(rtol 1e-9 + 16 eps location/spread) against reference formulas evaluated on the previous population; n_sim against the simulator log.',
     level_note='Trusts scipy densities and the reference formulas in this module.')
